@@ -109,7 +109,7 @@ GROUPS = ["tags and environment #%d" % k for k in range(max(len(TimeOfDay), len(
 
 class EnumRoundTrip(Contract):
     target = "commonroad.common.file_writer.CommonRoadFileWriter.write_to_file"
-    budget_s = 300
+    budget_s = 900
     summaries = ("float_to_str", "make_valid_orientation")
     unroll = {"commonroad.common.util.make_valid_orientation": 3, "commonroad.common.util.make_valid_orientation_interval": 3}
 
